@@ -63,7 +63,7 @@ Proof. vm_compute. repeat split. Qed.
 (** * Parsers over a file: [file := N -> N] is the byte at every offset (a
     finite byte string is zero from its length on), [alim] the largest
     allocation that succeeds.  The models are the *repaired* code (fix
-    patches 08, 09, 10, 15, 33, 50, 62, 70-79); [repaired = false] selects the
+    patches 08, 09, 10, 15, 33, 50, 62, 70-79, 90-93); [repaired = false] selects the
     pinned tree's logic where a [_refuted] witness is stated. *)
 From KdV Require Import Parse.Bounded Parse.NotesModel Parse.PElfModel Parse.FlatInit Parse.SizesModel
      Parse.ProbeModel Parse.BoundedProofs Parse.NotesProofs Parse.ElfProofs Parse.FlatInitProofs
@@ -84,6 +84,14 @@ Theorem C03_notes_linear_fuel : forall be c,
   exists r, loop_nat (notes_body be c) (N.to_nat (clen c / 12 + 1)) (0, clen c, []) = inr r.
 Proof. exact do_notes_linear_fuel. Qed.
 Print Assumptions C03_notes_linear_fuel.
+
+(** the model carries the C widths: were [descoff] an [Elf32_Word] (so that
+    [size < descoff + descsz] is evaluated modulo 2^32), a 12-byte buffer with
+    [n_descsz = 0xfffffff4] would hand the callback a descriptor outside the
+    buffer *)
+Theorem C03_notes_narrow_descoff_refuted : exists be c, do_notes_w true be c = OOB.
+Proof. exact do_notes_narrow_refuted. Qed.
+Print Assumptions C03_notes_narrow_descoff_refuted.
 
 (** the callbacks' name comparison never looks outside the name *)
 Theorem C03_note_names_in_bounds : forall n, exists a, noarch_note n = Ok a.
@@ -163,9 +171,9 @@ Proof. exact (fun h H => conj (proj1 (dd_choose_good h H)) (proj1 (proj2 (dd_cho
 Print Assumptions C03_diskdump_header_in_bounds.
 
 (** page descriptor [size] against the page buffer *)
-Theorem C03_diskdump_page_in_bounds : forall alim f ps flags size off,
-  is_ub (dd_page alim f ps flags size off) = false.
-Proof. exact (fun alim f ps flags size off => proj1 (dd_page_good alim f ps flags size off)). Qed.
+Theorem C03_diskdump_page_in_bounds : forall alim f flen ps flags size off,
+  is_ub (dd_page alim f flen ps flags size off) = false.
+Proof. exact (fun alim f flen ps flags size off => proj1 (dd_page_good alim f flen ps flags size off)). Qed.
 Print Assumptions C03_diskdump_page_in_bounds.
 
 (** ** (f) LKCD [dp_size] against the per-context buffer, composed with RLE *)
